@@ -112,6 +112,13 @@ func c10Group(n int) (*quickfix.RepeatingGroup, []fixscan.Field) {
 			e.SetGroup(sg)
 			flat = append(flat, fixscan.Field{802, "1"}, fixscan.Field{523, "S"}, fixscan.Field{803, "1"})
 		}
+		if i == 1 {
+			// two members the template does not name (they follow the template's members; set in tag order, so that
+			// insertion order and tag order agree: their mutual order is not the statement's business)
+			e.SetString(9001, "x")
+			e.SetString(9002, "y")
+			flat = append(flat, fixscan.Field{9001, "x"}, fixscan.Field{9002, "y"})
+		}
 	}
 	return g, flat
 }
@@ -467,7 +474,7 @@ func runC10(c *core.Ctx) {
 	if !quick {
 		plans = []plan{{false, 4}, {true, 6}}
 	}
-	c.SetRule("all programs of field-map operations up to depth d over (section x tag x {4 setter APIs, SetInt, SetBool, Remove}, Clear, SetGroup with 0/1/2 entries incl. a nested group, overwriting a group by a scalar, hand-set BodyLength/CheckSum, CopyInto a fresh, a previously parsed or a previously serialised message and continue, build-now); field-map reference model + independent byte scanner; quick: full alphabet depth 3 and reduced alphabet depth 5; thorough: depth 4 and 6")
+	c.SetRule("all programs of field-map operations up to depth d over (section x tag x {4 setter APIs, SetInt, SetBool, Remove}, Clear, SetGroup with 0/1/2 entries incl. a nested group and two members outside the template, overwriting a group by a scalar, hand-set BodyLength/CheckSum, CopyInto a fresh, a previously parsed or a previously serialised message and continue, build-now); field-map reference model + independent byte scanner; quick: full alphabet depth 3 and reduced alphabet depth 5; thorough: depth 4 and 6")
 	c.Assume("tags are used in their proper section; values SOH-free (incl. the empty value, for which only serialisation is judged, not parse-back)",
 		"field order inside a section is not prescribed by the statement except 8,9,35 first and 10 last")
 	var evals int64
